@@ -14,6 +14,22 @@ from vlib.serialize import Ser, tabulate_rom
 from checks.c03 import spec_run
 
 
+def obj_state(o):
+    """every instance attribute of a memory object: scalars by value, containers by the identities of their
+    elements, other objects by identity (port lists, counters, the ROM a RomBlock currently builds its ports on ...)"""
+    out = []
+    for k, v in sorted(vars(o).items()):
+        if k in ('data',):
+            continue                   # ROM contents are tabulated separately
+        if isinstance(v, (int, str, bool, type(None))):
+            out.append((k, repr(v)))
+        elif isinstance(v, (list, tuple, set, frozenset)):
+            out.append((k, tuple(sorted(id(e) for e in v))))
+        else:
+            out.append((k, id(v)))
+    return tuple(out)
+
+
 def fingerprint(block):
     """every attribute of every wire, net and memory that behaviour or tools can depend on"""
     ws = []
@@ -33,7 +49,7 @@ def fingerprint(block):
     for m in mems.values():
         rom = tuple(map(tuple, tabulate_rom(m))) if isinstance(m, RomBlock) and (1 << m.addrwidth) <= 4096 else None
         ms.append((id(m), m.name, m.id, m.bitwidth, m.addrwidth, m.asynchronous, type(m).__name__, rom,
-                   getattr(m, 'pad_with_zeros', None), m.max_read_ports, m.max_write_ports))
+                   getattr(m, 'pad_with_zeros', None), m.max_read_ports, m.max_write_ports, obj_state(m)))
     byname = tuple(sorted((k, id(v)) for k, v in block.wirevector_by_name.items()))
     membyname = tuple(sorted((k, id(v)) for k, v in block.memblock_by_name.items()))
     asserts = tuple(sorted((id(k), repr(v)) for k, v in block.rtl_assert_dict.items()))
@@ -125,6 +141,28 @@ def check_design(ctx, d, steps, memmap, label):
         if srcmems & resmems:
             ctx.violation(name + ':shares-memories', '%s result shares memory objects with the source' % name, dict(replay, op=name))
             ok = False
+        if name in ('synthesize', 'copy_block') and hasattr(res, 'mem_map'):
+            srcm = set(id(n.op_param[1]) for n in src.logic_subset('m@'))
+            resm = set(id(n.op_param[1]) for n in res.logic_subset('m@'))
+            keys, vals = set(id(k) for k in res.mem_map), set(id(v) for v in res.mem_map.values())
+            if not srcm <= keys or not resm <= vals:
+                ctx.violation(name + ':mem_map', '%s(update_working_block=False): the result\'s mem_map does not map every memory of the source '
+                              'block to the memory of the result (%d of %d source memories are keys, %d of %d result memories are values)' % (
+                                  name, len(srcm & keys), len(srcm), len(resm & vals), len(resm)), dict(replay, op=name))
+                ok = False
+        # every memory of the result is a faithful copy of the source memory with the same id
+        src_by_id = {n.op_param[1].id: n.op_param[1] for n in src.logic_subset('m@')}
+        for m2 in {id(n.op_param[1]): n.op_param[1] for n in res.logic_subset('m@')}.values():
+            m = src_by_id.get(m2.id)
+            if m is None:
+                continue          # reported through the behavioural comparison
+            a1 = (m.name, m.bitwidth, m.addrwidth, m.asynchronous, m.max_read_ports, m.max_write_ports, type(m).__name__)
+            a2 = (m2.name, m2.bitwidth, m2.addrwidth, m2.asynchronous, m2.max_read_ports, m2.max_write_ports, type(m2).__name__)
+            if a1 != a2:
+                ctx.violation(name + ':mem-attr', '%s: memory %s (name, bitwidth, addrwidth, asynchronous, max_read_ports, max_write_ports, class) '
+                              'is %r in the source and %r in the result' % (name, m.name, a1, a2), dict(replay, op=name))
+                ok = False
+                break
         after, _ = out_trace(ctx, src, d, steps, {}, memmap)
         if after != base:
             ctx.violation(name + ':source-behaviour-changed', 'simulated behaviour of the source differs after %s' % name,
@@ -200,6 +238,38 @@ def check_design(ctx, d, steps, memmap, label):
     return ok
 
 
+def port_limits(ctx):
+    """memories whose read/write port limits differ and are used to the limit"""
+    rng = ctx.rng
+    for k in range(ctx.n(6, 40)):
+        pyrtl.reset_working_block()
+        nr, nw = rng.randint(1, 3), rng.randint(1, 4)
+        lim_r, lim_w = rng.choice([nr, nr + 1, None]), rng.choice([nw, nw + 2, None])
+        m = pyrtl.MemBlock(8, 2, name='m', max_read_ports=lim_r, max_write_ports=lim_w, asynchronous=rng.random() < 0.5)
+        for i in range(nw):
+            m[Input(2, 'wa%d' % i)] <<= pyrtl.MemBlock.EnabledWrite(Input(8, 'wd%d' % i), Input(1, 'we%d' % i))
+        for i in range(nr):
+            o = Output(8, 'rd%d' % i)
+            o <<= m[Input(2, 'ra%d' % i)]
+        src = pyrtl.working_block()
+        replay = {'kind': 'port-limits', 'read_ports': nr, 'write_ports': nw, 'max_read_ports': lim_r, 'max_write_ports': lim_w}
+        for name, fn in (('copy_block', lambda: pyrtl.copy_block(src, update_working_block=False)),
+                         ('synthesize', lambda: pyrtl.synthesize(update_working_block=False, block=src)),
+                         ('optimize', lambda: pyrtl.optimize(update_working_block=False, block=src))):
+            ctx.evaluations += 1
+            try:
+                res = fn()
+            except Exception as e:  # noqa
+                ctx.violation('%s-raises:%s' % (name, simrun.err_class(e)), '%s(update_working_block=False) on a memory with %d read / %d write ports '
+                              '(limits %r / %r) raised %s: %s' % (name, nr, nw, lim_r, lim_w, type(e).__name__, str(e)[:160]), dict(replay, op=name))
+                continue
+            for m2 in {id(n.op_param[1]): n.op_param[1] for n in res.logic_subset('m@')}.values():
+                if (m2.max_read_ports, m2.max_write_ports, m2.id, m2.name) != (lim_r, lim_w, m.id, m.name):
+                    ctx.violation(name + ':mem-attr', '%s: memory limits/id/name (%r, %r, %r, %r) became (%r, %r, %r, %r)' % (
+                        name, lim_r, lim_w, m.id, m.name, m2.max_read_ports, m2.max_write_ports, m2.id, m2.name), dict(replay, op=name))
+        ctx.case(('port-limits', nr, nw, lim_r, lim_w), nontrivial=True)
+
+
 def main(ctx):
     proofs_ok = proof_gate(ctx, gen_modules=['Clone'])
     n = ctx.n(150, 3000)
@@ -221,6 +291,7 @@ def main(ctx):
         ctx.sample({'design': desc, 'agree': ok})
         if len(ctx.violations) >= 6:
             break
+    port_limits(ctx)
     ctx.oblige('observed:source untouched, copy disjoint and behaviourally identical', not ctx.violations,
                '%d/%d designs' % (agree, n))
     return conclude(ctx, rule='random designs with registers carrying reset values, memories, ROMs x {copy_block, '
